@@ -314,3 +314,18 @@ for _u in _c12["UNITS"]:
         UNITS.append(_u)
 META["trusted_base"] = list(META.get("trusted_base", [])) + [
     "unit c12.recycle.rebind_base is the C12 unit of the same name (specs/C12/recycle.c) with its trusted base"]
+
+
+# ---- C02 units reused (added after seeded changes C13-9 / C06-9 / C08-9 were missed): every wake-up of a pika task blocked in this
+# ---- facility ends in set_thread_state(pending); when the waiter still reads `active` (it has enqueued itself and dropped the internal
+# ---- lock but its worker has not stored `suspended` yet) the wake-up is carried by the helper set_active_state, which may drop it only
+# ---- when the target was re-activated since.  Same templates, same contracts as C02.
+_c02s = {"UNITS": [], "VX_NO_REUSE": True}
+if not globals().get("VX_NO_REUSE"):
+    exec(compile(open("/verif/specs/C02/spec.py").read(), "/verif/specs/C02/spec.py", "exec"), _c02s)
+for _u in _c02s["UNITS"]:
+    if _u.name in ("sts.set_thread_state", "sts.set_active_state", "agent.do_resume", "agent.do_yield"):
+        _u.name = "c02." + _u.name
+        _u.template = "../C02/" + _u.template
+        UNITS.append(_u)
+META["trusted_base"] = list(META.get("trusted_base", [])) + ["units c02.sts.* / c02.agent.* are the C02 units of the same name (specs/C02/sts.c, c02.h) with their trusted base"]
